@@ -121,6 +121,11 @@ def judge_logs(rep, hists, rc, logs, stderr, how):
                 if ln.split()[2] != want:
                     rep.violation(f"history {i} ({how}): freeze of a SchemaMut {'with a dangling key ' if want == 'err' else ''}answered '{ln.split()[2]}', the model says {want}: {ln[:120]}",
                                   {"fam": "lifecycle", "history": h, "how": how}, expected=f"Lifecycle!Freeze: {want}", observed=ln)
+        for ln in lg:
+            if ln.startswith("reader_teardown") and "input_saw_schema=0" in ln:
+                rep.violation(f"history {i} ({how}): a container reader released its schema before its internal state (its input, dropped with that state, "
+                              f"could no longer reach the schema): {ln[:120]}", {"fam": "lifecycle", "history": h, "how": how},
+                              expected="Lifecycle!DropReader1 then DropReader2: the state goes first, the Arc last", observed=ln)
         bad = [ln for ln in lg if "PAR-MISMATCH" in ln]
         if bad:
             rep.violation(f"history {i} ({how}): concurrent use of one schema gives results that differ from sequential use: {bad[0][:300]}",
@@ -160,6 +165,10 @@ def run(tier, seed):
     sweeps = [[{"op": "build", "s": 1, "g": 1 + (k // 2) % 2, "bad": 4, "key": str(huge[k])}, {"op": "freeze", "s": 1}] +
               ([{"op": "build", "s": 2, "g": 2 - (k // 2) % 2, "bad": 4, "key": str(huge[k + 1])}, {"op": "freeze", "s": 2}] if k + 1 < len(huge) else []) +
               [{"op": "use_values"}] for k in range(0, len(huge), 2)]
+    # the order in which a reader lets go of its state and of its schema, seen by an input that watches the schema (DropReader1 / DropReader2)
+    teardowns = [[{"op": "reader_teardown", "codec": cd, "file": fl, "reads": k, "take": tk}, {"op": "use_values"}]
+                 for cd in ("null", "deflate") for fl, k in (("ok", 0), ("ok", 1), ("ok", 99), ("badsync", 99), ("truncated", 99)) for tk in (False, True)]
+    core += teardowns
     core += [sweeps[1], sweeps[11]]        # (two of them under Miri as well)
     core_n = len(core)
     core = core + sweeps                   # all of them natively and against Trace_Lifecycle
@@ -181,7 +190,7 @@ def run(tier, seed):
     tevents, towner = [], []
     for i in tv_hist:
         lg = logs.get(i)
-        if lg is None or len(lg) < len(hists[i]):
+        if lg is None or len(lg) < len(hists[i]) or any(o_["op"] == "reader_teardown" for o_ in hists[i]):
             continue
         tevents.append({"op": {"op": "reset"}, "res": "", "strong": -1})
         towner.append(i)
